@@ -45,6 +45,7 @@ KINDS = [
     ('recommendation not met', 'recommend'),
     ('unreachable', 'unreachable'),
     ('loop invariant not preserved', 'inv_preserve'),
+    ('loop invariant not satisfied', 'inv_exit'),
     ('loop invariant not established', 'inv_entry'),
 ]
 RESOURCE_PAT = re.compile(r'resource limit|rlimit|timed? ?out|z3 process|Verus Internal Error|solver', re.I)
